@@ -18,14 +18,13 @@ PROP = {'n_quick': 700,
  'assumes': ['total word length (HRP expansion + data + checksum symbols) <= 1023 for the distance theorem, <= 140 for the variant-switch theorem; segwit '
              'addresses of the three built-in networks are at most 137 symbols',
              "HRP corruptions and parsing under another network's parameters can leave the code (other checksum family / base58check); there the theorem keeps "
-             'an explicit residual disjunct (C17_hrp_partial)']}
+             'explicit residual disjuncts (C17_hrp: hrp_residual_base58, hrp_residual_cross)']}
 
 TEXT = {'text': 'Kernel-checked: the checksum engine step is GF(2)-linear (C17_linear); the residue of a corrupted word is the residue of the word xor the syndrome '
          'of the error pattern (C17_syndrome); for each of bech32, bech32m (upstream constants) and blech32, blech32m (constants re-read from '
          'src/blech32/mod.rs) the 31*1023 values Z^a(u) are pairwise distinct and non-zero (C17_table, vm_compute), hence a word of total length <= 1023 at '
          'Hamming distance 1 or 2 from a codeword is not a codeword (C17_two_errors), and a word within distance 2 of a bech32 (blech32) codeword is not a '
-         'bech32m (blech32m) codeword and vice versa for lengths <= 140 (C17_switch). Lifted to address strings by C17_address. A string with letters of both cases anywhere (HRP included) is rejected by either decoder and never parses as a segwit address (C17_mixed_case, C17_mixed_case_address, C17_hrp_case: the case part of the HRP clause). The rest of the HRP clause and parsing '
-         "under another network's parameters are partial (explicit residual disjunct).",
+         'bech32m (blech32m) codeword and vice versa for lengths <= 140 (C17_switch). Lifted to address strings by C17_address. A string with letters of both cases anywhere (HRP included) is rejected by either decoder and never parses as a segwit address (C17_mixed_case, C17_mixed_case_address, C17_hrp_case: the case part of the HRP clause). Replacing the HRP by an equally long string that is not a re-casing (C17_hrp): rejected by FromStr and under every built-in network, with two explicit residual disjuncts — the new prefix is no built-in HRP and the whole string is a valid base58check address for the hash (impossible when any character, e.g. a 0 or l of the data part, is outside the base58 alphabet), or the new prefix is the HRP of the other checksum family and the same symbols are a codeword there too (lengths leave only a 40-byte unblinded program <-> blinding key + 3-byte program); a built-in HRP of the same family (ert<->tex, lq<->el) is rejected for every data part by a kernel sweep over the 12 ordered same-length HRP pairs x 4 codes x 1023 lengths (C17_hrp_swap); C17_hrp_common: no residual for 20/32-byte programs whose text has a 0 or l. Parsing a data-corrupted address under the other networks: C17_address_every_network.',
  'design_ref': 'DESIGN.md section 6, C17',
  'note': 'Trusted: Coq kernel incl. vm_compute; hand-written Gallina model of the bech32 0.11 engine/decoder and of src/blech32/decode.rs, src/address.rs; '
          'upstream bech32/bech32m constants transcribed by hand; translator regexes; extraction + OCaml driver audited by in-kernel vm_compute; Rust harness. '
